@@ -151,7 +151,10 @@ func (a *accessManager) isBlockedIP(ip netip.Addr) (blocked bool, rule string) {
 		ipnets = a.allowedNets
 	}
 
-	if ips.Has(ip) {
+	// An exact-address entry is written without a zone, while the address of a
+	// link-local client carries one; compare the address itself, like the
+	// prefixes below do.
+	if ips.Has(ip) || (ip.Zone() != "" && ips.Has(ip.WithZone(""))) {
 		return blocked, ip.String()
 	}
 
